@@ -482,7 +482,7 @@ func genC13Case(r *Rng) c13Input {
 }
 
 func TestC13(t *testing.T) {
-	cfg := LoadCfg(t, 160, 3000)
+	cfg := LoadCfg(t, 160, 1200)
 	em := NewEmitter(t, cfg.Out)
 	defer em.Close()
 	run := func(in c13Input) { em.Emit(in, runC13(t, in), nil) }
